@@ -76,6 +76,15 @@ class Reductions(object):
         else:
             sym = S(z3.Real('red.%s.%d' % (kind, n)))
         self.records.append(Record(kind, summand, extra, sym, ls))
+        if kind in ('any', 'all') and isinstance(ls, S) and ls.is_bool:
+            # a summand that is false (true) at every index gives any == False (all == True)
+            chk = core.mk_solver(800)
+            chk.add(*self.st.pc)
+            chk.add(*core.side_conditions())
+            if kind == 'any' and chk.check(ls.t) == z3.unsat:
+                self.st.assume(core.s_not(sym))
+            elif kind == 'all' and chk.check(z3.Not(ls.t)) == z3.unsat:
+                self.st.assume(sym)
         # monotonicity of sums / maxima: a summand that is >= 0 at every index gives a result >= 0
         if kind in ('sum', 'max') and isinstance(ls, S) and not ls.is_bool:
             chk = core.mk_solver(800)
